@@ -5,7 +5,7 @@ use std::{
 
 use weechess_core::{
     utils::ArrayMap, AttackGenerator, BitBoard, Color, Move, MoveGenerator, Piece, PieceIndex,
-    State,
+    PseudoLegalMove, Square, State,
 };
 
 mod evaluate_bad_pawns;
@@ -272,7 +272,15 @@ impl Evaluator {
                 & !state.board().occupancy()
                 & !state.board().colored_attacks(!state.turn_to_move());
 
-            valid_king_squares.any()
+            // The attack map is computed with the king still on the board, so a square behind the
+            // king on a slider's ray looks free. Only count a square if the king step is legal.
+            let king_piece = PieceIndex::new(state.turn_to_move(), Piece::King);
+            valid_king_squares.iter_ones().any(|bit| {
+                let step = Move::by_moving(king_piece, king_square, Square::from(bit));
+                PseudoLegalMove::new(step)
+                    .try_as_legal_move(state)
+                    .is_some()
+            })
         };
 
         // If the king can move, we're definitely not in checkmate or stalemate, so we can
